@@ -504,7 +504,7 @@ class C04(Prop):
                 out.append((PC("-printf " + q), "-printf-literal"))
                 out.append((PC("-fprintf f " + q), "-fprintf-literal"))
         for c in C04_ALPHABET + list("kHY@"):
-            q = quote_any("%A" + c + "%T" + c)
+            q = quote_any("%A" + c + "%C" + c + "%T" + c)
             if q:
                 out.append((PC("-printf " + q), "strftime-selector"))
         for esc in ["\\042", "\\134", "\\176", "\\045", "\\101", "\\000", "\\777", "\\\\", "\\", "\\n\\t\\a\\b\\f\\r\\v\\0"]:
